@@ -75,6 +75,21 @@ def make_cases(ctx, n):
             recs = [{"a": 0, "s": "aaaaaaaaaaaaaaaa"} for _ in range(nrec)]
             cases.append(dict(raw=named["Rep"], parsed=rep, named=named, records=recs, codec=codec, si=si, meta=None,
                               sync=bytes(range(16)), level=rng.choice([None, 9]), use_raw=False, sizes=[K.record_size(rep, r) for r in recs]))
+    # schemas whose named types were parsed SEPARATELY (shared named_schemas dict) and are referred to by name from a top-level
+    # union / array / map / record: the file must still be self-describing
+    for top in (["null", "pc.Item", "pc.Tag"], {"type": "array", "items": "pc.Item"}, {"type": "map", "values": ["pc.Tag", "pc.Item"]},
+                {"type": "record", "name": "pc.Box", "fields": [{"name": "i", "type": "pc.Item"}, {"name": "t", "type": ["null", "pc.Tag"], "default": None}]}):
+        named = {}
+        fastavro.parse_schema({"type": "enum", "name": "pc.Tag", "symbols": ["X", "Y"]}, named)
+        fastavro.parse_schema({"type": "record", "name": "pc.Item", "fields": [{"name": "n", "type": "long"}, {"name": "t", "type": "pc.Tag"}]}, named)
+        parsed = fastavro.parse_schema(top, named)
+        item = {"n": 5, "t": "Y"}
+        recs = ([item, "X", None] if isinstance(top, list) else [[item, item], []] if top.get("type") == "array" else
+                [{"a": "Y", "b": item}, {}] if top.get("type") == "map" else [{"i": item, "t": "X"}, {"i": item}])
+        sizes = [K.record_size(parsed, r) for r in recs]
+        if all(x is not None for x in sizes):
+            cases.append(dict(raw=top, parsed=parsed, named=named, records=recs, codec=rng.choice(K.CODECS), si=rng.choice([1, 16000]), meta=None,
+                              sync=bytes(range(16)), level=None, use_raw=False, sizes=sizes, piecewise=True))
     while len(cases) < n:
         if rng.random() < 0.35:
             raw, parsed, named = rng.choice(pool)
@@ -98,7 +113,7 @@ def make_cases(ctx, n):
                  codec=rng.choice(K.CODECS), si=rng.choice(si_choices),
                  meta=rng.choice([None, {}, {"k": "v"}, {"a": "é", "long": "x" * 70}, {"avro.codec": "zzz", "u": ""}]),
                  sync=bytes(rng.randrange(256) for _ in range(16)) if rng.random() < 0.7 else b"",
-                 level=rng.choice([None, None, 1, 9]), use_raw=rng.random() < 0.4, sizes=sizes)
+                 level=rng.choice([None, None, 1, 9, 0, -1]), use_raw=rng.random() < 0.4, sizes=sizes)
         cases.append(c)
     return cases
 
@@ -120,7 +135,7 @@ def impl_write_file(c, fo=None):
 
 def case_json(c):
     return dict(schema=c["raw"], records_repr=repr(c["records"]), codec=c["codec"], sync_interval=c["si"], metadata=c["meta"],
-                sync=c["sync"].hex(), level=c["level"], use_raw=c["use_raw"])
+                sync=c["sync"].hex(), level=c["level"], use_raw=c["use_raw"], piecewise=bool(c.get("piecewise")))
 
 
 def run(ctx):
@@ -147,6 +162,8 @@ def run(ctx):
             continue
         c["sync_used"] = c["sync"] or sync
         schema_arg = c["raw"] if c["use_raw"] else c["parsed"]
+        if c.get("piecewise"):
+            schema_arg = K.inline_named(c["parsed"], c["named"])      # the header must carry the definitions
         em = K.expected_meta(schema_arg, c["codec"], c["meta"])
         ops = [("write", r) for r in c["records"]] + [("flush",)]
         exprs.append(K.expr_history(c["parsed"], c["named"], em, c["sync_used"], c["si"], ops))
@@ -260,6 +277,9 @@ def replay(ctx, rep):
     c = rep["case"]
     import fastavro
     named = {}
+    if c.get("piecewise"):
+        fastavro.parse_schema({"type": "enum", "name": "pc.Tag", "symbols": ["X", "Y"]}, named)
+        fastavro.parse_schema({"type": "record", "name": "pc.Item", "fields": [{"name": "n", "type": "long"}, {"name": "t", "type": "pc.Tag"}]}, named)
     parsed = fastavro.parse_schema(c["schema"], named)
     recs = eval(c["records_repr"], dict(CC.EVAL_ENV))
     cc = dict(raw=c["schema"], parsed=parsed, named=named, records=recs, codec=c["codec"], si=c["sync_interval"], meta=c["metadata"],
@@ -271,7 +291,7 @@ def replay(ctx, rep):
     t, out = K.impl_read_file(data)
     ok = t.endswith("|END") and len(out) == len(recs) and all(CC.norm_equiv(r, o, parsed, named) for r, o in zip(recs, out))
     hl, meta, sync = K.split_header(data)
-    em = K.expected_meta(c["schema"] if c["use_raw"] else parsed, c["codec"], c["metadata"])
+    em = K.expected_meta(K.inline_named(parsed, named) if c.get("piecewise") else c["schema"] if c["use_raw"] else parsed, c["codec"], c["metadata"])
     m = CC.run_model(ctx, [K.expr_history(parsed, named, em, cc["sync"] or sync, cc["si"], [("write", r) for r in recs] + [("flush",)])], "rp")[0]
     hdr, steps = K.parse_history(m)
     same = K.to_null(data, c["codec"]) == hdr + b"".join(b for _, b in steps)
